@@ -376,7 +376,7 @@ class Check(core.CheckBase):
                 copy_obj = cls.parse_exact_size(bytes(obj.compose()))
                 strictly_equal = structural.deep_state(copy_obj, strict_types=True) == structural.deep_state(obj, strict_types=True)
                 try:
-                    library_equal = bool(copy_obj == obj) and structural.equal(copy_obj, obj)
+                    library_equal = bool(copy_obj == obj) and (structural.equal(copy_obj, obj) or self.same_but_for_enum_wrapping(copy_obj, obj))
                 except Exception:  # pylint: disable=broad-except
                     library_equal = False
                 if strictly_equal or library_equal:
@@ -425,6 +425,26 @@ class Check(core.CheckBase):
                                 cls_name, field.name), case))
                         break
         return found
+
+    @staticmethod
+    def same_but_for_enum_wrapping(left, right):
+        """Equal for the library's == and differing only in that one side holds the plain value (10) where the other holds
+        the enumeration member with that value (MYSQL_10 = 10): the same message, which has one rendering."""
+        import enum  # pylint: disable=import-outside-toplevel
+
+        def same(one, other):
+            if isinstance(one, enum.Enum) != isinstance(other, enum.Enum):
+                member, value = (one, other) if isinstance(one, enum.Enum) else (other, one)
+                return isinstance(member, (int, str)) and type(value) in (int, str) and member.value == value
+            if attr.has(type(one)) and type(one) is type(other):
+                return all(same(getattr(one, field.name), getattr(other, field.name)) for field in attr.fields(type(one)))
+            if isinstance(one, (list, tuple)) and isinstance(other, (list, tuple)) and len(one) == len(other):
+                return all(same(a, b) for a, b in zip(one, other))
+            return structural.equal(one, other)
+        try:
+            return same(left, right)
+        except Exception:  # pylint: disable=broad-except
+            return False
 
     def judge_enum(self, case):
         enums = dict(inventory.string_enums())
